@@ -238,7 +238,7 @@ func selftest() int {
 	report["ok"] = ok
 	b, _ := json.MarshalIndent(report, "", " ")
 	_ = os.MkdirAll(filepath.Join(verifDir, "evidence"), 0o755)
-	_ = os.WriteFile(filepath.Join(verifDir, "evidence", "selftest.json"), append(b, '\n'), 0o644)
+	_ = os.WriteFile(filepath.Join(verifDir, "selftest-result.json"), append(b, '\n'), 0o644)
 	if ok {
 		fmt.Println("selftest: ok")
 		return 0
